@@ -31,6 +31,17 @@ type pathDesc struct {
 	Note    string    `json:"note,omitempty"`
 }
 
+var outsideEnvelope = map[string]int{}
+
+func runMutatePathsQuiet(fsys apkfs.FullFS, ms []mut) (err error) {
+	defer func() {
+		if r := recover(); r != nil {
+			err = fmt.Errorf("panic: %v", r)
+		}
+	}()
+	return runMutatePaths(fsys, ms)
+}
+
 func runMutatePaths(fsys apkfs.FullFS, ms []mut) (err error) {
 	defer func() {
 		if r := recover(); r != nil {
@@ -138,8 +149,33 @@ func pathCase(w *gal.Writer, backend int, setup []setupOp, ms []mut, note string
 			break
 		}
 		ok++
+		// outside the stated envelope: a hard-linked directory (a cycle makes
+		// fs.WalkDir recurse forever) or an entry literally named ".", ".." or "/"
+		if ms[i-1].Type == "hardlink" {
+			if fi, err := fsys.Stat(ms[i-1].Path); err == nil && fi.IsDir() {
+				outsideEnvelope["directory-hard-link"]++
+				return
+			}
+		}
+		oddNames = false
+		_ = dumpFS(fsys)
+		if oddNames {
+			outsideEnvelope["entry-named-dot-or-slash"]++
+			return
+		}
 		steps = append(steps, galStep(fsys, ms[i-1]))
 		final = fsys
+	}
+	if lastErr != nil {
+		// the failing call may have left such an entry behind as well
+		fsys, _ := buildFS(backend, kept)
+		_ = runMutatePathsQuiet(fsys, ms[:ok+1])
+		oddNames = false
+		_ = dumpFS(fsys)
+		if oddNames {
+			outsideEnvelope["entry-named-dot-or-slash"]++
+			return
+		}
 	}
 	var dump, layer []dentry
 	if ok == len(ms) {
@@ -300,5 +336,7 @@ func pathsStage(dir string, seed uint64, tier string) error {
 		n = 4000
 	}
 	pathRandom(w, gal.NewRand(seed+13), n)
+	fmt.Printf("STAT {\"paths_cases_skipped_outside_envelope_directory_hard_link\": %d, \"paths_cases_skipped_outside_envelope_odd_entry_name\": %d}\n",
+		outsideEnvelope["directory-hard-link"], outsideEnvelope["entry-named-dot-or-slash"])
 	return w.Flush()
 }
